@@ -448,7 +448,7 @@ package types
 //@   nopanic[C16]
 //@   requires newProject != nil
 //@   ensures[C16] has(environment, s) && environment[s] != nil ==> result.1
-//@?  ensures[C16] has(environment, s) && environment[s] != nil ==> result.0 == *environment[s]
+//@   ensures[C16] has(environment, s) && environment[s] != nil ==> result.0 == deref(environment[s])
 //@ func (Project).WithServicesLabelsResolved$1
 //@   nopanic[C16]
 //@   ensures[C16] result.1 <==> (has(labels, s) && labels[s] != nil)
